@@ -59,11 +59,26 @@ pub struct Q {
     pub bytes: std::collections::VecDeque<u8>,
     pub exhausted: bool,
     pub covered: Vec<&'static str>,
+    /// palette mode: every typed draw consumes ONE byte and returns that type's boundary value with
+    /// this index (used by the native counterexample search when a verifier counterexample over
+    /// uninterpreted primitives does not reproduce)
+    pub palette: bool,
 }
+pub const PAL_F64: [f64; 28] = [0.0, -0.0, 1.0, -1.0, 0.5, -0.5, 1.5, -1.5, 2.5, -2.5, 2.0, 3.0, 1e10, -1e10, 2147483648.0, -2147483649.0,
+    5e-324, f64::MAX, f64::MIN, f64::INFINITY, f64::NEG_INFINITY, f64::NAN, 0.49999999999999994, 1e-7, 9007199254740993.0, std::f64::consts::PI, 9223372036854775808.0, 4503599627370497.0];
+pub const PAL_F32: [f32; 24] = [0.0, -0.0, 1.0, -1.0, 0.5, -0.5, 1.5, -1.5, 2.5, -2.5, 2.0, 3.0, 1e10, -1e10, 2147483648.0, -2147483904.0,
+    1e-45, f32::MAX, f32::MIN, f32::INFINITY, f32::NEG_INFINITY, f32::NAN, 0.49999997, 8388609.0];
+pub const PAL_I32: [i32; 22] = [0, 1, -1, 2, -2, 3, 7, 12, 13, 31, 32, 33, 64, i32::MIN, i32::MIN + 1, i32::MAX, i32::MAX - 1, 46340, 46341, -46341, 65536, -65536];
+pub const PAL_I64: [i64; 18] = [0, 1, -1, 2, -2, 3, 20, 21, 63, 64, i64::MIN, i64::MIN + 1, i64::MAX, i64::MAX - 1, 2147483648, -2147483649, 3037000499, 3037000500];
+pub const PAL_U64: [u64; 12] = [0, 1, 2, 3, 62, 63, 64, 65, 127, 128, u64::MAX, u64::MAX - 1];
 impl Q {
     pub fn new(b: &[u8]) -> Q {
-        Q { bytes: b.iter().copied().collect(), exhausted: false, covered: vec![] }
+        Q { bytes: b.iter().copied().collect(), exhausted: false, covered: vec![], palette: false }
     }
+    pub fn new_palette(b: &[u8]) -> Q {
+        Q { bytes: b.iter().copied().collect(), exhausted: false, covered: vec![], palette: true }
+    }
+    fn idx(&mut self, n: usize) -> usize { self.take::<1>()[0] as usize % n }
     fn take<const N: usize>(&mut self) -> [u8; N] {
         let mut a = [0u8; N];
         for x in a.iter_mut() {
@@ -90,13 +105,13 @@ impl Src for Q {
     fn u8(&mut self) -> u8 { self.take::<1>()[0] }
     fn bool(&mut self) -> bool { self.take::<1>()[0] & 1 == 1 }
     fn u16(&mut self) -> u16 { u16::from_le_bytes(self.take()) }
-    fn i32(&mut self) -> i32 { i32::from_le_bytes(self.take()) }
-    fn u32(&mut self) -> u32 { u32::from_le_bytes(self.take()) }
-    fn i64(&mut self) -> i64 { i64::from_le_bytes(self.take()) }
-    fn u64(&mut self) -> u64 { u64::from_le_bytes(self.take()) }
-    fn usize(&mut self) -> usize { usize::from_le_bytes(self.take()) }
-    fn f64(&mut self) -> f64 { f64::from_le_bytes(self.take()) }
-    fn f32(&mut self) -> f32 { f32::from_le_bytes(self.take()) }
+    fn i32(&mut self) -> i32 { if self.palette { PAL_I32[self.idx(PAL_I32.len())] } else { i32::from_le_bytes(self.take()) } }
+    fn u32(&mut self) -> u32 { if self.palette { PAL_U64[self.idx(PAL_U64.len())] as u32 } else { u32::from_le_bytes(self.take()) } }
+    fn i64(&mut self) -> i64 { if self.palette { PAL_I64[self.idx(PAL_I64.len())] } else { i64::from_le_bytes(self.take()) } }
+    fn u64(&mut self) -> u64 { if self.palette { PAL_U64[self.idx(PAL_U64.len())] } else { u64::from_le_bytes(self.take()) } }
+    fn usize(&mut self) -> usize { if self.palette { PAL_U64[self.idx(PAL_U64.len())] as usize } else { usize::from_le_bytes(self.take()) } }
+    fn f64(&mut self) -> f64 { if self.palette { PAL_F64[self.idx(PAL_F64.len())] } else { f64::from_le_bytes(self.take()) } }
+    fn f32(&mut self) -> f32 { if self.palette { PAL_F32[self.idx(PAL_F32.len())] } else { f32::from_le_bytes(self.take()) } }
 }
 
 /// `std::fmt::format` replacement used by every Kani harness (`-Z stubbing`): error-message
@@ -171,6 +186,13 @@ macro_rules! vharness {
             #[kani::stub(<f64 as core::ops::Add<f64>>::add, $crate::u7::s_add)] #[kani::stub(<f64 as core::ops::Sub<f64>>::sub, $crate::u7::s_sub)]
             #[kani::stub(<f64 as core::ops::Mul<f64>>::mul, $crate::u7::s_mul)] #[kani::stub(<f64 as core::ops::Div<f64>>::div, $crate::u7::s_div)]
             #[kani::stub(<f64 as core::ops::Neg>::neg, $crate::u7::s_neg)]
+            #[kani::stub(f32::sin, $crate::u7::f_sin)] #[kani::stub(f32::cos, $crate::u7::f_cos)] #[kani::stub(f32::tan, $crate::u7::f_tan)]
+            #[kani::stub(f32::asin, $crate::u7::f_asin)] #[kani::stub(f32::acos, $crate::u7::f_acos)] #[kani::stub(f32::atan, $crate::u7::f_atan)]
+            #[kani::stub(f32::sinh, $crate::u7::f_sinh)] #[kani::stub(f32::cosh, $crate::u7::f_cosh)] #[kani::stub(f32::tanh, $crate::u7::f_tanh)]
+            #[kani::stub(f32::asinh, $crate::u7::f_asinh)] #[kani::stub(f32::acosh, $crate::u7::f_acosh)] #[kani::stub(f32::atanh, $crate::u7::f_atanh)]
+            #[kani::stub(f32::exp, $crate::u7::f_exp)] #[kani::stub(f32::cbrt, $crate::u7::f_cbrt)] #[kani::stub(f32::ln, $crate::u7::f_ln)]
+            #[kani::stub(f32::log2, $crate::u7::f_log2)] #[kani::stub(f32::log10, $crate::u7::f_log10)] #[kani::stub(f32::sqrt, $crate::u7::f_sqrt)]
+            #[kani::stub(f32::powf, $crate::u7::f_powf)] #[kani::stub(f32::atan2, $crate::u7::f_atan2)] #[kani::stub(f32::powi, $crate::u7::f_powi)]
             $(#[kani::stub($($orig)+, $stub)])*
             #[kani::unwind($u)]
             fn proof() {
